@@ -168,6 +168,12 @@ func ppProtCase(w *bufio.Writer, r *u.Rng, dist map[string]int, caseNo int, long
 			fmt.Fprintf(w, "MONFAIL\tprotect/bytes-outside-hp\theader protection changed bytes other than the first byte and the packet number\t%s\n", ctx)
 		}
 		mask := e.encMask(lg.HPSample)
+		if !long {
+			if k := e.ua.ChaChaHPKeyEnc(); k != nil && len(lg.HPSample) == 16 {
+				fmt.Fprintf(w, "CASE 1 %s\n", u.App("ChaChaMaskCase", u.Hex(k), u.Hex(lg.HPSample), u.Hex(mask)))
+				dist["chacha-mask"]++
+			}
+		}
 		fmt.Fprintf(w, "CASE 1 %s\n", u.App("ProtCase", ppB(long), u.Hex(hdr), u.Hex(payload), u.Z(pn), u.Z(kp), u.Z(int64(pnLen)),
 			u.Hex(lg.SealCT), u.Hex(lg.HPSample), u.Hex(mask), u.Hex(pkt)))
 		dist[fmt.Sprintf("prot-%v-pnlen%d", map[bool]string{true: "long", false: "short"}[long], pnLen)]++
